@@ -47,6 +47,8 @@ fn cli_strat(_: &Ctx) -> BoxedStrategy<CliCase> {
                     kt_ratio: None,
                     max_step_size: max_step,
                     convergence: None,
+                    verbosity: 0,
+                    start_config: None,
                 },
                 kmax,
             }
